@@ -2556,6 +2556,9 @@ func WriteStringToWriter(writer io.Writer, s string) error {
 	return err
 }
 
+// readChunkSize is the largest piece of a string body that is allocated before it has been read.
+const readChunkSize = 4096
+
 // ReadStringFromReader read a string from reader.
 func ReadStringFromReader(reader io.Reader) (string, error) {
 	length := make([]byte, 8)
@@ -2567,12 +2570,23 @@ func ReadStringFromReader(reader io.Reader) (string, error) {
 		return "", err
 	}
 	strLen := binary.LittleEndian.Uint64(length)
-	strByte := make([]byte, int(strLen))
-	counter, err = io.ReadFull(reader, strByte)
-	TotalRead += uint64(counter)
-	if err != nil {
+	// The length prefix is not trusted with the allocation: the body is read in chunks, so a corrupted
+	// prefix costs at most one chunk before the reader runs dry.
+	strByte := make([]byte, 0)
+	for remaining := strLen; remaining > 0; {
+		n := remaining
+		if n > readChunkSize {
+			n = readChunkSize
+		}
+		chunk := make([]byte, int(n))
+		counter, err = io.ReadFull(reader, chunk)
+		TotalRead += uint64(counter)
+		if err != nil {
 
-		return "", err
+			return "", err
+		}
+		strByte = append(strByte, chunk...)
+		remaining -= n
 	}
 	ReadCount++
 
